@@ -29,12 +29,14 @@ def mk(cid, text, stdin=b"", flags=None, script=True):
     marker = "RAN-%d" % (zlib.crc32(cid.encode()) % 100000)
 
     def check(r):
-        if r.timed_out and marker in r.text:
-            return None      # scanning, parsing and compiling finished: the (cut or mutated) program itself runs long
+        diag = ("parse error" in r.etext) or ("compile error" in r.etext)
+        if marker in r.text and not diag:
+            # scanning, parsing and compiling finished and the program is executing: how the (cut or mutated) program itself
+            # ends - an endless loop, a runtime error, printing a container that contains itself - is not this property's concern
+            return None
         m = no_panic(r)
         if m:
             return m
-        diag = ("parse error" in r.etext) or ("compile error" in r.etext)
         if diag and marker in r.text:
             return "diagnostics were reported (%s) but the program was executed (its first statement printed)" % r.etext.strip().splitlines()[-1][:120]
     prog = 'puts("%s");\n' % marker + text
